@@ -65,8 +65,9 @@ def units_for(prop):
         uj = os.path.join(CONTRACTS, d, "unit.json")
         if os.path.exists(uj):
             u = json.load(open(uj))
-            if u.get("property") == prop:
+            if u.get("property") == prop or prop in u.get("also_serves", []):
                 u["_dir"] = os.path.join(CONTRACTS, d)
+                u["_foreign"] = u.get("property") != prop
                 out.append(u)
     return out
 
@@ -134,6 +135,14 @@ def fn_breakdown(out):
         for f in m.get("function-breakdown", []):
             res[f["function"]] = {"success": f["success"], "ms": f["time"], "mode": f.get("mode:", f.get("mode"))}
     return res
+
+
+def split_tag(ob_id):
+    """'name @C12' -> ('name', 'C12'); untagged -> (name, None)"""
+    if " @" in ob_id:
+        n, t = ob_id.rsplit(" @", 1)
+        return n.strip(), t.strip()
+    return ob_id, None
 
 
 def classify(diags, meta):
@@ -301,7 +310,8 @@ def check_rustc_unit(u, res, src, wd, meta):
     compile_ob = u.get("compile_obligation")
     if r.returncode != 0:
         first = "\n".join(r.stderr.split("\n")[:30])
-        if compile_ob:
+        marker = u.get("frame_type", "CurrentSessionId")
+        if compile_ob and marker in r.stderr:
             res["failures"].append({"obligation": compile_ob, "item": compile_ob, "message":
                                     "extracted text does not type-check against the frame: " + first, "spans": []})
             res["obligations"].append({"id": compile_ob, "item": compile_ob, "kind": "frame", "status": "failed",
@@ -397,6 +407,34 @@ def main():
             print("scratch kept at", scratch)
 
 
+def project(res, u, prop):
+    """Keep the obligations of `prop` in a unit shared between properties (`//# ob: name @Cxx`).
+    A failed obligation that belongs to another property makes this property UNDECIDED (the modular proof
+    of our obligations assumed that contract), never a violation of `prop`."""
+    home = u.get("property")
+
+    def owner(ob_id):
+        n, t = split_tag(ob_id)
+        return n, (t or home)
+    obs = []
+    for o in res["obligations"]:
+        n, own = owner(o["id"])
+        if own == prop:
+            obs.append(dict(o, id=n))
+    fails = []
+    for f in res["failures"]:
+        n, own = owner(f["obligation"])
+        if own == prop:
+            fails.append(dict(f, obligation=n))
+        else:
+            res["undecided"].append(f"obligation `{n}` of property {own} failed in the shared unit {res['unit']}; "
+                                    f"the proof of {prop}'s obligations is modular over it")
+    res["obligations"], res["failures"] = obs, fails
+    if not obs and not res["undecided"]:
+        res["undecided"].append(f"vacuity: unit {res['unit']} has no obligation tagged for {prop}")
+    return res
+
+
 def do_check(prop, args, scratch, seed, t0):
     ensure_extractor()
     units = units_for(prop)
@@ -405,6 +443,7 @@ def do_check(prop, args, scratch, seed, t0):
     with cf.ThreadPoolExecutor(max_workers=4) as ex:
         results = list(ex.map(lambda u: check_unit(u, scratch, args), units))
 
+    results = [project(r, u, prop) for r, u in zip(results, units)]
     known = [k for k in load_known() if k.get("property") == prop]
     known_open = {k["obligation"]: k for k in known if k.get("status") == "known"}
 
